@@ -376,6 +376,12 @@ Section Store.
     | _ => f1
     end.
 
+  (* a FAULT instead of a kill: primitive step number k+1 of the save returns an error (disk full, quota, file size
+     limit, directory not writable, I/O error) after k completed steps.  writeFileAtomic then closes and removes the
+     temporary file and UpdateSpec returns the error - there is no second attempt on the definition itself. *)
+  Definition fault_fs (f : fs) (name : string) (spec : bytes) (rnd : string) (k : nat) : fs :=
+    fs_del (tmp_of (file_loc dir name) rnd) (run_prims f (firstn k (save_prims f name spec rnd))).
+
 End Store.
 
 Definition empty_world : world := mkW [] [] [].
